@@ -345,3 +345,15 @@ package roundrobin
 // its own common divisor g_k >= 1): once ratings stop differing, six adjustments restore the configured proportions.
 // It is an unrolling to exactly the bound in the statement, not an unbounded induction.
 //@ theorem {C10} c10_six_adjustments_restore_proportions: forall oa int, ca0 int, ca1 int, ca2 int, ca3 int, ca4 int, ca5 int, ca6 int, ob int, cb0 int, cb1 int, cb2 int, cb3 int, cb4 int, cb5 int, cb6 int, g0 int, g1 int, g2 int, g3 int, g4 int, g5 int :: oa >= 1 && ca0 >= 1 && ca0 <= max(4096, oa) && ob >= 1 && cb0 >= 1 && cb0 <= max(4096, ob) && g0 >= 1 && ca1 >= 1 && ca1 * g0 == ite(ca0 == oa, ca0, max(oa, ca0 / 4)) && cb1 >= 1 && cb1 * g0 == ite(cb0 == ob, cb0, max(ob, cb0 / 4)) && g1 >= 1 && ca2 >= 1 && ca2 * g1 == ite(ca1 == oa, ca1, max(oa, ca1 / 4)) && cb2 >= 1 && cb2 * g1 == ite(cb1 == ob, cb1, max(ob, cb1 / 4)) && g2 >= 1 && ca3 >= 1 && ca3 * g2 == ite(ca2 == oa, ca2, max(oa, ca2 / 4)) && cb3 >= 1 && cb3 * g2 == ite(cb2 == ob, cb2, max(ob, cb2 / 4)) && g3 >= 1 && ca4 >= 1 && ca4 * g3 == ite(ca3 == oa, ca3, max(oa, ca3 / 4)) && cb4 >= 1 && cb4 * g3 == ite(cb3 == ob, cb3, max(ob, cb3 / 4)) && g4 >= 1 && ca5 >= 1 && ca5 * g4 == ite(ca4 == oa, ca4, max(oa, ca4 / 4)) && cb5 >= 1 && cb5 * g4 == ite(cb4 == ob, cb4, max(ob, cb4 / 4)) && g5 >= 1 && ca6 >= 1 && ca6 * g5 == ite(ca5 == oa, ca5, max(oa, ca5 / 4)) && cb6 >= 1 && cb6 * g5 == ite(cb5 == ob, cb5, max(ob, cb5 / 4)) ==> ca6 * ob == cb6 * oa
+
+// ---- construction establishes the lock invariants ----------------------------------------------------------------------
+//@ functype roundrobin.RebalancerOption
+//@   params r
+//@   modifies r.backoffDuration, r.newMeter, r.errHandler, r.stickySession, r.requestRewriteListener, r.debug, r.log
+
+//@ func NewRebalancer
+//@   props C02 C10 C11
+//@   modifies nothing
+//@   ensures empty_records: result1 == nil ==> result0 != nil && fresh(result0) && fresh(result0.mtx) && len(result0.servers) == 0 && len(result0.ratings) == 0 && result0.next == handler && result0.errHandler != nil && result0.newMeter != nil && result0.backoffDuration != 0
+//@   ensures invariants_established: result1 == nil ==> rbPoolOK(result0) && rbUniq(result0) && rbDistinct(result0) && rbWeightsOK(result0)
+//@   loop 1 invariant rb != nil && fresh(rb) && fresh(rb.mtx) && len(rb.servers) == 0 && len(rb.ratings) == 0 && rb.next == handler
